@@ -7,4 +7,6 @@ cp /tmp/rtest-target-$$/debug/libobjects_py.so dulwich/_objects.cpython-312-x86_
 cp /tmp/rtest-target-$$/debug/libpack_py.so dulwich/_pack.cpython-312-x86_64-linux-gnu.so
 cp /tmp/rtest-target-$$/debug/libdiff_tree_py.so dulwich/_diff_tree.cpython-312-x86_64-linux-gnu.so
 timeout 2400 /venv/bin/python -m pytest -ra -q -p no:cacheprovider --timeout=900 --continue-on-collection-errors 2>&1 | tail -15
+# test modules the default collection does not pick up (classes living in package __init__ files)
+timeout 1200 /venv/bin/python -m pytest -q -p no:cacheprovider --timeout=900 tests/porcelain/__init__.py tests/__init__.py 2>&1 | tail -4
 cd /; git -C /repo worktree remove --force $W; rm -rf /tmp/rtest-target-$$
